@@ -30,7 +30,7 @@ CONSTANTS RejectCtl,   \* see above
           Drops,       \* TRUE: the server may drop the control connection instead of answering
           Modes        \* subset of {"file", "rest", "listing"}: plain RETR, RETR after REST, directory listing
 
-AllShapes == {"single", "multi", "multi_sp", "multi_dig", "lf", "multi_lf", "cr_in", "other"}
+AllShapes == {"single", "multi", "multi_sp", "multi_dig", "lf", "multi_lf", "cr_in", "cr_code", "other"}
 Alphabet  == {97, CR, LF, NUL, SP, 37}     \* plain 'a', CR, LF, NUL, space, percent sign (after percent-decoding)
 
 VARIABLES
@@ -136,6 +136,8 @@ ShapeBytes(c, t, sh) ==
     [] sh = "lf"        -> D \o <<SP>> \o t \o <<LF>>
     [] sh = "multi_lf"  -> D \o <<DASH, 120>> \o <<LF>> \o D \o <<SP>> \o t \o <<LF>>
     [] sh = "cr_in"     -> D \o <<SP, 113, CR>> \o t \o CRLF
+    \* a bare CR followed by something that looks like a final line: the assertion in Reply.parse fails
+    [] sh = "cr_code"   -> D \o <<SP, 113, CR>> \o D \o <<SP>> \o t \o CRLF
     [] sh = "other"     -> D \o <<DASH, 120>> \o CRLF \o <<50, 57, 57, SP, 119>> \o CRLF \o D \o <<SP>> \o t \o CRLF
 
 Menu(pc, b) ==
